@@ -277,7 +277,7 @@ def apply_selector(rng, lines, sel, lst):
         lines.append('make_bin "out/b.bin"')
         exp.append("out/b.bin"); first = ("bin", "out/b.bin")
     elif sel == "make-raw":
-        lines.insert(rng.randrange(len(lines) + 1), 'make_raw "r.raw"')
+        lines.insert(rng.choice([0, len(lines)]), 'make_raw "r.raw"')      # never between the lines of a planted multi-line statement
         exp.append("r.raw"); first = ("raw", "r.raw")
     elif sel == "make-rom":
         lines.insert(0, 'make_bk0010_rom "rom.bin"')
